@@ -341,6 +341,14 @@ def npd_cell(form, a, b, f):
     return None, False
 
 
+def z0_same(a, br, bi):
+    """C forms a z0 entry as `re + I * im`: I * im = (0 * im, im), so a non-finite imaginary part makes the real part a NaN."""
+    re, im = xfloat(br), xfloat(bi)
+    if not math.isfinite(im):
+        re = float("nan")
+    return same(a.real, re) and same(a.imag, im)
+
+
 def compare_npd(mres, load_line, dump_line):
     head = load_line.partition(" # ")[0].split()
     rc, en = int(head[1]), head[2]
@@ -378,14 +386,14 @@ def compare_npd(mres, load_line, dump_line):
         for i, (cz, mz) in enumerate(zip(o.fz0, m["fz0"])):
             # a Zin object of zero ports has one (unused) z0 entry
             for p, (a, (br, bi)) in enumerate(zip(cz, mz)):
-                if not (same(a.real, xfloat(br)) and same(a.imag, xfloat(bi))):
+                if not z0_same(a, br, bi):
                     return ("diff", "z0", "z0 of port %d at frequency %d: C %r, model %s %s" % (p + 1, i, a, br, bi))
     else:
         want = m["z0"] if m["z0"] is not None else [("50/1", "0/1")] * len(o.z0)
         if len(want) != len(o.z0):
             return ("diff", "z0", "C has %d z0 entries, model %d" % (len(o.z0), len(want)))
         for p, (a, (br, bi)) in enumerate(zip(o.z0, want)):
-            if not (same(a.real, xfloat(br)) and same(a.imag, xfloat(bi))):
+            if not z0_same(a, br, bi):
                 return ("diff", "z0", "z0 of port %d: C %r, model %s %s" % (p + 1, a, br, bi))
     for i, (cm, mm) in enumerate(zip(o.data, m["cells"])):
         if len(cm) != len(mm):
